@@ -213,6 +213,21 @@ def build(case):
                 return PathNode(tm([goal[i] + random.uniform(-0.05, 0.05) for i in range(6)]))
             return lib_random_pos()
         rec.gen_fn = gen_goal_bias
+    elif case["gen_cb"] == "pool":
+        # samples drawn WITH replacement from a finite roadmap of poses (twice as many as the budget), as a lattice /
+        # roadmap / goal-biased sampler does: the same pose comes up again and again.  (Each draw is displaced by a
+        # nanometre times its serial number so that the harness can tell draws apart by value; to the planner - whose
+        # node equality has a 1e-4 tolerance and whose minimum distance is far larger - they are repeats.)
+        K = max(20, 2 * int(case["iterations"]))
+        pool = [[random.uniform(b[i][0], b[i][1]) for i in range(6)] for _ in range(K)]
+        serial = [0]
+
+        def gen_pool():
+            serial[0] += 1
+            v = list(pool[random.randrange(K)])
+            v[0] += 1e-9 * serial[0]
+            return PathNode(tm(v))
+        rec.gen_fn = gen_pool
     else:
         raise ValueError(case["gen_cb"])
 
@@ -539,7 +554,7 @@ def runs(draw, max_iter):
     dmode = draw(st.sampled_from([0, 0, 1]))
     api = draw(st.sampled_from(["findPath", "general", "general"]))
     if api == "general":
-        gen_cb = draw(st.sampled_from(["default", "default", "position_only", "goal_bias"]))
+        gen_cb = draw(st.sampled_from(["default", "default", "position_only", "goal_bias", "pool"]))
         dist_cb = draw(st.sampled_from(["default", "default", "scaled", "weighted6", "climb"]))
         coll_cb = draw(st.sampled_from(["default", "default", "own_margin"]))
     else:
@@ -582,6 +597,19 @@ def runs(draw, max_iter):
         dmin = 0.0
         iterations = draw(st.integers(3, 8))
     knn = draw(st.one_of(st.integers(2, 20), st.integers(5, 20), st.integers(1, 20), st.sampled_from([1, 2, 15, 20])))
+    if gen_cb == "pool":
+        # a finite pool: keep the window wide open so that the budget can always be met from the unused half of the pool
+        dmax = 100.0
+        dmin = min(dmin, 0.05 * pos_scale)
+        iterations = min(iterations, 150)
+    elif (not flat) and dist_cb in ("default", "scaled", "climb") and dmode == 0 and draw(st.integers(0, 5)) == 0:
+        # a LARGE minimum distance (0.3..0.45 of the half-width) under a positional metric while the index orders
+        # neighbours by all six coordinates: the then-nearest node is that far away, other examined neighbours need
+        # not be (nothing in the statement says they are)
+        dmin = draw(G.floats(0.3, 0.45)) * pos_scale
+        dmax = 100.0
+        iterations = min(iterations, 60)       # (the rejection loop slows down as the region fills up)
+        knn = max(knn, 8)
     return {"seed": seed, "start": [float(v) for v in start + srot], "goal": [float(v) for v in goal + grot],
             "bounds": [[float(a), float(bb)] for a, bb in bounds], "boxes": [[[float(v) for v in lo], [float(v) for v in hi]]
                                                                              for lo, hi in boxes],
